@@ -38,64 +38,86 @@ def log(*a):
     print(*a, file=sys.stderr, flush=True)
 
 
+SHARD_BYTES = int(os.environ.get('VERIF_SHARD_MB', '6')) * 1000000     # a shard is judged by one JVM
+NJVM = int(os.environ.get('VERIF_JVMS', '14'))                           # JVMs validating at the same time
+JVM_HEAP = os.environ.get('VERIF_JVM_HEAP', '2g')
+
+
 def _work(arg):
-    prop, tier, seed, chunk = arg
+    """Run the cases of one chunk; the traces go straight to shard files (never held in memory), what comes
+    back is one light record per trace: (id, number of events, meta without the case, shard path)."""
+    prop, tier, seed, idx, chunk, workdir = arg
     out = []
+    part, size, f = 0, 0, None
+    path = None
     for cid, case in chunk:
         try:
-            out.extend(scripts.run_case(prop, cid, case, tier, seed))
+            res = scripts.run_case(prop, cid, case, tier, seed)
         except Exception:
             raise RuntimeError('driver failed on case %s: %s\n%s'
                                % (cid, json.dumps(case)[:500], traceback.format_exc()))
+        for tr, meta in res:
+            line = json.dumps(tr)
+            if f is None or size + len(line) > SHARD_BYTES:
+                if f is not None:
+                    f.close()
+                part += 1
+                path = os.path.join(workdir, 'shard%03d-%03d.ndjson' % (idx, part))
+                f, size = open(path, 'w'), 0
+            f.write(line + '\n')
+            size += len(line) + 1
+            meta = {k: v for k, v in meta.items() if k != 'case'}
+            meta['cid'] = cid
+            out.append((tr['id'], len(tr['ev']), meta, path))
+    if f is not None:
+        f.close()
     return out
 
 
-def drive(prop, tier, seed, cases):
-    """cases: list of (cid, case) -> list of (trace, meta)."""
+def drive(prop, tier, seed, cases, workdir):
+    """cases: list of (cid, case) -> list of (trace id, #events, meta, shard path)."""
     chunks = [cases[i::NPROC * 4] for i in range(NPROC * 4)]
     chunks = [c for c in chunks if c]
+    args = [(prop, tier, seed, i, c, workdir) for i, c in enumerate(chunks)]
     if len(cases) < 40:
-        return _work((prop, tier, seed, cases))
-    ctx = multiprocessing.get_context('fork')
-    with ctx.Pool(NPROC) as pool:
-        res = pool.map(_work, [(prop, tier, seed, c) for c in chunks])
+        res = [_work((prop, tier, seed, 0, cases, workdir))]
+    else:
+        ctx = multiprocessing.get_context('fork')
+        with ctx.Pool(NPROC) as pool:
+            res = pool.map(_work, args)
     out = []
     for r in res:
         out.extend(r)
-    out.sort(key=lambda tm: tm[0]['id'])
+    out.sort(key=lambda t: t[0])
     return out
 
 
-def validate(workdir, traces, nshards=NPROC):
-    """-> (list of fail records, stats)"""
-    n = max(1, min(nshards, (len(traces) + 49) // 50))
-    shards = [[] for _ in range(n)]
-    sizes = [0] * n
-    for tr in sorted(traces, key=lambda t: -len(t['ev'])):
-        i = sizes.index(min(sizes))
-        shards[i].append(tr)
-        sizes[i] += sum(len(json.dumps(e)) for e in tr['ev'][:1]) * len(tr['ev']) + 1
-    paths = []
-    for i, sh in enumerate(shards):
-        p = os.path.join(workdir, 'shard%02d.ndjson' % i)
-        with open(p, 'w') as f:
-            for tr in sh:
-                f.write(json.dumps(tr) + '\n')
-        paths.append(p)
+def read_trace(path, tid):
+    with open(path) as f:
+        for line in f:
+            if tid in line[:400]:
+                tr = json.loads(line)
+                if tr['id'] == tid:
+                    return tr
+    raise tlc.TLCError('trace %s not found in %s' % (tid, path))
+
+
+def validate(workdir, recs):
+    """Judge every shard with TLC -> (list of fail records, stats)"""
+    paths = sorted({r[3] for r in recs})
     fails, gen, dist = [], 0, 0
-    heap = '%dg' % max(2, min(8, 48 // n))
-    with concurrent.futures.ThreadPoolExecutor(max_workers=NPROC) as ex:
-        futs = [ex.submit(tlc.validate_shard, os.path.join(workdir, 'tv%02d' % i), p, heap)
+    with concurrent.futures.ThreadPoolExecutor(max_workers=NJVM) as ex:
+        futs = [ex.submit(tlc.validate_shard, os.path.join(workdir, 'tv%03d' % i), p, JVM_HEAP)
                 for i, p in enumerate(paths)]
         for fu in futs:
             fl, st = fu.result()
             fails.extend(fl)
             gen += st['generated']
             dist += st['distinct']
-    expected = sum(len(t['ev']) + 1 for t in traces)
+    expected = sum(r[1] + 1 for r in recs)
     if dist != expected:
         raise tlc.TLCError('trace validation consumed %d states, expected %d' % (dist, expected))
-    return fails, {'states': dist, 'transitions': gen}
+    return fails, {'states': dist, 'transitions': gen, 'shards': len(paths)}
 
 
 def run_check(prop, tier, seed, keep=False):
@@ -125,24 +147,32 @@ def run_check(prop, tier, seed, keep=False):
             cases.append(('%s-%05d' % (fam, i), c))
         log('[%s] family %s: %d cases (%d states, %.1fs)' % (prop, fam, len(cs), st['distinct'], st['wall_s']))
     cases = scripts.select_cases(prop, tier, seed, cases)
-    tm = drive(prop, tier, seed, cases)
-    traces = [t for t, _ in tm]
-    if len({t['id'] for t in traces}) != len(traces):
+    case_of = dict(cases)
+    recs = drive(prop, tier, seed, cases, work)
+    if len({r[0] for r in recs}) != len(recs):
         raise tlc.TLCError('trace ids are not unique')
-    metas = {t['id']: m for t, m in tm}
-    nev = sum(len(t['ev']) for t in traces)
-    log('[%s] %d traces, %d events recorded from the library (%.1fs)' % (prop, len(traces), nev, time.time() - t0))
-    fails, vstats = validate(work, traces)
-    log('[%s] TLC judged %d states (%.1fs)' % (prop, vstats['states'], time.time() - t0))
+    metas = {r[0]: dict(r[2], case=case_of[r[2]['cid']]) for r in recs}
+    shard_of = {r[0]: r[3] for r in recs}
+    ntraces = len(recs)
+    nev = sum(r[1] for r in recs)
+    log('[%s] %d traces, %d events recorded from the library (%.1fs)' % (prop, ntraces, nev, time.time() - t0))
+    fails, vstats = validate(work, recs)
+    log('[%s] TLC judged %d states in %d shards (%.1fs)' % (prop, vstats['states'], vstats['shards'], time.time() - t0))
     # ---- aggregate
     prefix = prop + '.'
     kf = findings.load()
     violations, known = [], collections.OrderedDict()
     other_props = collections.Counter()
     by_class = collections.Counter()
-    tr_by_id = {t['id']: t for t in traces}
+    tr_cache = {}
+
+    def trace_of(tid):
+        if tid not in tr_cache:
+            tr_cache[tid] = read_trace(shard_of[tid], tid)
+        return tr_cache[tid]
+
     for fr in fails:
-        tr = tr_by_id[fr['id']]
+        tr = trace_of(fr['id'])
         meta = metas[fr['id']]
         ev = tr['ev'][fr['step'] - 1]
         for clause in fr['fails']:
@@ -180,7 +210,7 @@ def run_check(prop, tier, seed, keep=False):
                            'failing': [{'step': s, 'clause': c} for s, c in lst],
                            'meta': {k: v for k, v in m.items() if k != 'case'},
                            'case': {k: v for k, v in m['case'].items() if k != '_cid'},
-                           'cid': m['case'].get('_cid', ''), 'trace': tr_by_id[tid]}, f, indent=1)
+                           'cid': m['cid'], 'trace': trace_of(tid)}, f, indent=1)
             replay_paths.append((p, lst))
     for ent, cnt in known.values():
         print('KNOWN-FINDING: property=%s %s [clause %s; %d occurrences]' % (prop, ent['note'], ent['clause'], cnt))
@@ -191,22 +221,22 @@ def run_check(prop, tier, seed, keep=False):
         print('VIOLATION property=%s replay=none' % prop)
     # ---- evidence
     wall = time.time() - t0
-    cov = scripts.coverage(prop, tm)
-    if cov.get('nontrivial', 0) < 2 or not traces:
+    cov = scripts.coverage(prop, [(None, metas[r[0]]) for r in recs])
+    if cov.get('nontrivial', 0) < 2 or not recs:
         raise tlc.TLCError('vacuous run: %r' % cov)
-    sample = traces[len(traces) // 2]
+    sample = trace_of(recs[len(recs) // 2][0])
     ev = {
         'property_id': prop, 'tier': tier, 'seed': seed, 'level': 'model_checking',
         'coverage': {
             'states': vstats['states'] + sum(s['distinct'] for s in gen_stats),
             'transitions': vstats['transitions'] + sum(s['generated'] for s in gen_stats),
-            'traces_validated_against_impl': len(traces),
+            'traces_validated_against_impl': ntraces,
             'events_validated': nev,
             'samples': [{'trace_id': sample['id'], 'meta': {k: v for k, v in metas[sample['id']].items() if k != 'case'},
                          'events': [{'a': e['a'], 'args': e.get('args', {})} for e in sample['ev']][:12]}],
             'exhaustive': all(not s.get('simulate') for s in gen_stats) and not cov.get('sampled', False),
             'generators': gen_stats,
-            'evaluations': len(traces),
+            'evaluations': ntraces,
             'distinct_nontrivial': cov.get('nontrivial', 0),
             'rule': cov.get('rule', ''),
             'detail': cov.get('detail', {}),
